@@ -496,7 +496,11 @@ def trace_case(cid, t):
             if it["type_url"].startswith("/regen.data."):
                 continue  # data module tables are not part of the ledger model; they do not touch ledger tables
             if it.get("more"):
-                raise OutOfModel("multi-message tx")
+                # a failed multi-message transaction has no effect (the model's transaction rule, C10); a successful
+                # one is outside the per-message evaluator
+                if ok:
+                    raise OutOfModel("successful multi-message tx")
+                continue
             m = msg_term(it["type_url"], it["msg"])
             items.append("%s %s %s %s %s %s" % (spelling_ctor(it["type_url"], it["msg"]), m, cbool(ok), response_term(it["type_url"], res.get("responses")) if ok else "REmpty",
                                                   clist(event_terms(res.get("events"), bech)) if ok else "[]",
